@@ -187,6 +187,11 @@ class MinErrorFlow():
         self.edge_error_vars = {}
         self.edge_sol = {}
 
+        for (u, v) in self.G.edges():
+            value = self.G[u][v].get(self.flow_attr, 0)
+            if (u, v) not in self.edges_to_ignore and not (abs(value) < float("inf")):
+                utils.logger.error(f"{__name__}: Edge ({u},{v}) has the non-finite value {value}. All values must be finite numbers.")
+                raise ValueError(f"Edge ({u},{v}) has the non-finite value {value}. All values must be finite numbers.")
         # (as a Python float: a numpy integer such as uint8 would wrap around in the product with the number of edges below)
         self.w_max = float(max(
             [
